@@ -23,6 +23,21 @@ type (
 		B string
 		C float64
 	}
+	rDash struct {
+		A    int64   `db:"a"`
+		Skip string  `db:"-"`
+		B    string  `db:"b"`
+		C    float64 `db:"c"`
+	}
+	rDashInner struct {
+		A    int64  `db:"a"`
+		Skip string `db:"-"`
+		B    string `db:"b"`
+	}
+	rDashE struct {
+		rDashInner
+		C float64 `db:"c"`
+	}
 	rP3 struct {
 		A *int64   `db:"a"`
 		B *string  `db:"b"`
@@ -151,6 +166,9 @@ func TestVerifRows(t *testing.T) {
 		{"slice-of-ptr-tagged", true, func() any { return &[]*rT3{} }, true},
 		{"slice-of-untagged", false, func() any { return &[]rU3{} }, true},
 		{"slice-of-embedded-tagged", true, func() any { return &[]rE3{} }, true},
+		{"tagged-with-ignored-field/partial-only", true, func() any { return &rDash{} }, false},
+		{"embedded-with-ignored-field/partial-only", true, func() any { return &rDashE{} }, false},
+		{"slice-of-tagged-with-ignored-field/partial-only", true, func() any { return &[]rDash{} }, true},
 	}
 	var colSets [][]string
 	colSets = append(colSets, perms([]string{"a", "b", "c"})...)
@@ -166,6 +184,9 @@ func TestVerifRows(t *testing.T) {
 				for _, strict := range []bool{true, false} {
 					if !d.tagged && fmt.Sprint(cols) != "[a b c]" && len(cols) >= 3 {
 						continue // untagged: positional, columns == fields, declared order only
+					}
+					if strings.HasSuffix(d.name, "/partial-only") && strict {
+						continue // how strict mode counts a field tagged "-" is not stated
 					}
 					f := &fakeDB{columns: cols}
 					for r := 0; r < nrows; r++ {
